@@ -50,6 +50,14 @@ def n_cl(xs: list[TC], y: TC) -> bool: ...
 def n_cb(x: T, cb: Callable[[T], None]) -> None: ...
 def n_cb2(cb1: Callable[[T], None], cb2: Callable[[T], None], x: T) -> int: ...
 def n_list(xs: list[T], cb: Callable[[T], None]) -> None: ...
+# fixed-shape / variadic tuple parameters mentioning type variables (round-3 seeded change: the bounds the
+# members of a tuple argument impose were dropped by SequenceValue.can_assign)
+def t_cc(p: tuple[TC, TC]) -> bool: ...
+def t_cc_r(p: tuple[TC, TC]) -> TC: ...
+def t_kv(p: tuple[K, V], k: K, cb: Callable[[V], None]) -> None: ...
+def t_cbT(p: tuple[Callable[[T], None], T]) -> None: ...
+def t_var(p: tuple[TC, ...], y: TC) -> bool: ...
+def t_nest(ps: list[tuple[TC, TC]], y: TC) -> bool: ...
 def f_opt(x: T | None, y: T) -> T: ...
 def f_or(x: T | list[T], y: T) -> T: ...
 def f_opt1(x: T | None) -> T: ...
@@ -91,6 +99,12 @@ SIGS = {
     "n_cb": (n_cb, ["s", "c"], False),
     "n_cb2": (n_cb2, ["c", "c", "s"], False),
     "n_list": (n_list, ["l", "c"], False),
+    "t_cc": (t_cc, ["tp"], False),
+    "t_cc_r": (t_cc_r, ["tp"], False),
+    "t_kv": (t_kv, ["tp", "s", "c"], False),
+    "t_cbT": (t_cbT, ["tc"], False),
+    "t_var": (t_var, ["tv", "s"], False),
+    "t_nest": (t_nest, ["tl", "s"], False),
     "f_opt": (f_opt, ["s", "s"], False),
     "f_or": (f_or, ["sl", "s"], False),
     "f_opt1": (f_opt1, ["s"], False),
@@ -107,6 +121,7 @@ BARE = {
     "f_dict": {1: "~K"}, "f_cb": {0: "~T"}, "f_cbx": {2: "~T"}, "f_b": {0: "~TB", 1: "~TB"}, "f_a": {0: "~TA", 1: "~TA"},
     "f_c": {0: "~TC", 1: "~TC"}, "f_d": {0: "~TD", 1: "~TD"}, "f_cl": {1: "~TC"},
     "f_opt": {1: "~T"}, "f_or": {1: "~T"},
+    "t_kv": {1: "~K"}, "t_var": {1: "~TC"}, "t_nest": {1: "~TC"},
     "n_xy": {0: "~T", 1: "~T"}, "n_c": {0: "~TC", 1: "~TC"}, "n_d": {0: "~TD", 1: "~TD"}, "n_b": {0: "~TB", 1: "~TB"},
     "n_cl": {1: "~TC"}, "n_cb": {0: "~T"}, "n_cb2": {2: "~T"},
 }
@@ -116,7 +131,22 @@ SCALARS = ["k1", "kTrue", "ka", "k1_5", "kNone", "t_int", "t_str", "t_float", "t
 LISTS = ["l_int", "l_str", "l_bool", "l_obj", "l_lit1", "l_lit1a", "l_empty", "l_A", "l_B", "tup_int", "k_list12", "any"]
 DICTS = ["d_str_int", "d_int_str", "d_lit", "any"]
 CALLBACKS = ["g_int", "g_str", "g_obj", "g_float", "g_bool", "g_int_str", "any"]
-POOLS = {"s": SCALARS, "l": LISTS, "d": DICTS, "c": CALLBACKS, "sl": SCALARS + LISTS}
+# tuple arguments: name -> names of the member values (resolved through arg_value)
+TUPLES = {
+    "tp_1_a": ["k1", "ka"], "tp_1_True": ["k1", "kTrue"], "tp_a_a": ["ka", "ka"], "tp_int_str": ["t_int", "t_str"],
+    "tp_int_bool": ["t_int", "t_bool"], "tp_a_1": ["ka", "k1"], "tp_15_a": ["k1_5", "ka"],
+}
+CB_TUPLES = {"tc_int_a": ["g_int", "ka"], "tc_int_1": ["g_int", "k1"], "tc_str_a": ["g_str", "ka"], "tc_str_1": ["g_str", "k1"], "tc_obj_a": ["g_obj", "ka"]}
+VAR_TUPLES = {"tv_int": "t_int", "tv_str": "t_str", "tv_bool": "t_bool", "tv_int_str": "u_int_str"}   # tuple[e, ...]
+LIST_TUPLES = {"tl_int_str": "tp_int_str", "tl_int_bool": "tp_int_bool", "tl_1_a": "tp_1_a", "tl_a_a": "tp_a_a"}  # list[<tuple>]
+# which type variable each member of a tuple parameter feeds (independent of pyanalyze's bound generation)
+MEMBER_TV = {
+    "t_cc": {0: ["~TC", "~TC"]}, "t_cc_r": {0: ["~TC", "~TC"]}, "t_kv": {0: ["~K", "~V"]},
+    "t_cbT": {0: [("cb", "~T"), "~T"]}, "t_var": {0: "every:~TC"}, "t_nest": {0: ["~TC", "~TC"]},
+}
+CB_PARAM = {"g_int": "t_int", "g_str": "t_str", "g_obj": None, "g_float": "t_float", "g_bool": "t_bool", "g_int_str": "t_int"}
+
+POOLS = {"tp": list(TUPLES), "tc": list(CB_TUPLES), "tv": list(VAR_TUPLES), "tl": list(LIST_TUPLES), "s": SCALARS, "l": LISTS, "d": DICTS, "c": CALLBACKS, "sl": SCALARS + LISTS}
 
 # arguments that mostly fit a signature's declaration (used for 70% of the draws, so that the
 # bounded / constrained signatures are not almost always rejected)
@@ -126,6 +156,7 @@ FRIENDLY = {
     "f_c": ["k1", "kTrue", "ka", "t_int", "t_str", "t_bool", "any"],
     "f_d": ["k1", "k1_5", "ka", "t_float", "t_str", "t_A", "t_B", "kAinst", "t_int", "any"],
     "n_c": ["k1", "kTrue", "ka", "t_int", "t_str", "t_bool"],
+    "t_var": ["k1", "ka", "t_int", "t_str", "kTrue"], "t_nest": ["k1", "ka", "t_int", "t_str"], "t_kv": ["k1", "ka", "t_int", "t_str"],
     "n_d": ["k1", "k1_5", "ka", "t_float", "t_str", "t_A", "kAinst", "t_int"],
     "n_b": ["k1", "kTrue", "k1_5", "t_int", "t_float", "t_bool"],
 }
@@ -162,7 +193,47 @@ def arg_value(name):
             g_int=KnownValue(g_int), g_str=KnownValue(g_str), g_obj=KnownValue(g_obj),
             g_float=KnownValue(g_float), g_bool=KnownValue(g_bool), g_int_str=KnownValue(g_int_str),
         )
+    if name not in _vals:
+        from pyanalyze.value import GenericValue, SequenceValue
+
+        if name in TUPLES or name in CB_TUPLES:
+            ms = (TUPLES.get(name) or CB_TUPLES[name])
+            _vals[name] = SequenceValue(tuple, [(False, arg_value(m)) for m in ms])
+        elif name in VAR_TUPLES:
+            _vals[name] = GenericValue(tuple, [arg_value(VAR_TUPLES[name])])
+        elif name in LIST_TUPLES:
+            _vals[name] = GenericValue(list, [arg_value(LIST_TUPLES[name])])
     return _vals[name]
+
+
+def member_bounds(sig_name, arg_names):
+    """{type variable name: (lower values, upper values)} that the members of tuple arguments impose,
+    derived from the harness's own description of the signatures (MEMBER_TV), not from pyanalyze"""
+    out = {}
+    for i, spec in MEMBER_TV.get(sig_name, {}).items():
+        n = arg_names[i]
+        if n in LIST_TUPLES:
+            n = LIST_TUPLES[n]
+        if isinstance(spec, str):  # tuple[T, ...]
+            if n in VAR_TUPLES:
+                out.setdefault(spec.split(":")[1], ([], []))[0].append(arg_value(VAR_TUPLES[n]))
+            continue
+        members = TUPLES.get(n) or CB_TUPLES.get(n)
+        if members is None or len(members) != len(spec):
+            continue
+        for m, tvn in zip(members, spec):
+            if isinstance(tvn, tuple):  # a callback member: its parameter type is an upper bound
+                p = CB_PARAM.get(m)
+                if p is not None:
+                    out.setdefault(tvn[1], ([], []))[1].append(arg_value(p))
+            else:
+                out.setdefault(tvn, ([], []))[0].append(arg_value(m))
+    for i, tvn in BARE.get(sig_name, {}).items():
+        if sig_name in MEMBER_TV:
+            out.setdefault(tvn, ([], []))[0].append(arg_value(arg_names[i]))
+    if sig_name == "t_kv" and arg_names[2] in CB_PARAM and CB_PARAM[arg_names[2]] is not None:
+        out.setdefault("~V", ([], []))[1].append(arg_value(CB_PARAM[arg_names[2]]))
+    return out
 
 
 _sigs = {}
@@ -256,6 +327,27 @@ def check_call(sig_name, arg_names):
             if not out["diagnosed"]:
                 out["failures"].append({"what": f"no candidate value satisfies the bounds of {tv} ({', '.join(str(b) for b in bounds if not isinstance(b, (IsOneOf, OrBound)))}"
                                                 + "".join(f", {tv} in ({', '.join(map(str, cs))})" for cs in cons) + ") but the call is accepted",
+                                        "kind": "unsatisfiable", "accepted": True})
+    # the same brute force on the bounds the harness itself derives for tuple-shaped parameters (so that
+    # bounds silently dropped by the implementation's own bound generation are noticed)
+    from pyanalyze.value import TypedValue as _TV
+
+    for tvn, (lows, ups) in member_bounds(sig_name, arg_names).items():
+        if any(isinstance(v, AnyValue) for v in lows + ups):
+            continue
+        d = DECLARED.get(tvn)
+        cons = [[_TV(t) for t in d[1]]] if d and d[0] == "constraints" else []
+        ups2 = ups + ([_TV(d[1])] if d and d[0] == "bound" else [])
+        cands = [v for _, v in u.atoms()] + lows + ups2 + [o for cs in cons for o in cs] + [NO_RETURN_VALUE]
+        if lows:
+            cands.append(unite_values(*lows))
+        ok = any(all(v.is_assignable(x, c) for x in lows) and all(x.is_assignable(v, c) for x in ups2)
+                 and all(any(v == o for o in cs) for cs in cons) for v in cands)
+        if not ok:
+            out["unsatisfiable"].append(tvn + " (members)")
+            if not out["diagnosed"]:
+                out["failures"].append({"what": f"no candidate value satisfies the bounds the members of the tuple argument impose on {tvn} "
+                                                f"(lower: {', '.join(map(str, lows))}; upper: {', '.join(map(str, ups2))}) but the call is accepted",
                                         "kind": "unsatisfiable", "accepted": True})
     for tv, bounds in bm.items():
         out["bounds"] += len(bounds)
